@@ -4,6 +4,7 @@ CONSTANTS
   Vals <- Vals12
   MaxList = 2
   MaxEnt = 2
+  SrcMode = "full"
 INIT Init
 NEXT Next
 INVARIANT ReprInv
